@@ -51,11 +51,7 @@ pub fn key_of(input: &Input<'_>) -> Result<Key, String> {
     })
 }
 
-/// Monotone index mapping for proptest-generated u16 selectors
-pub fn pick<T: Clone>(table: &[T], sel: u16) -> T {
-    let i = (sel as usize * table.len()) >> 16;
-    table[i.min(table.len() - 1)].clone()
-}
+pub use vmodel::engine::pick;
 
 /// Run a fresh real decoder over the bytes
 pub fn real_decode(bytes: &[u8]) -> Result<Vec<(usize, Key)>, String> {
